@@ -424,4 +424,178 @@ theorem clampGo_len (m : Nat) (s : List Nat) : utf8Len (clampGo m s) ≤ m := by
       simp only [utf8Len]; omega
     · simp [utf8Len]
 
+/-! ### the whole fragment pipeline / the whole assembly (no hyphen fusion) -/
+
+theorem layoutFrags_nil (Ω : Geo G) (o : Opts) : layoutFrags Ω o ([] : List (Frag G)) = [] := by
+  simp [layoutFrags]
+
+theorem layoutFrags_nonWs (Ω : Geo G) (o : Opts) (hmh : o.mh = false) (fs0 : List (Frag G)) :
+    nonWs (chars (layoutFrags Ω o fs0)) ~ nonWs (chars fs0) := by
+  unfold layoutFrags
+  simp only [hmh, hyWrap_off]
+  generalize h1 : (if fs0.isEmpty = true then fs0 else mergeCloseRegions Ω fs0) = fs1
+  have e1 : nonWs (chars fs1) = nonWs (chars fs0) := by
+    rw [← h1]; split
+    · rfl
+    · exact mergeCloseRegions_nonWs Ω fs0
+  generalize h2 : (if (o.sp && !o.rp && !fs1.isEmpty) = true
+      then sortAndMerge Ω (o.dc || (o.rc && !o.pl)) fs1 else fs1) = fs2
+  have e2 : nonWs (chars fs2) ~ nonWs (chars fs1) := by
+    rw [← h2]; split
+    · exact sortAndMerge_nonWs Ω _ fs1
+    · exact Perm.refl _
+  generalize h3 : (if (o.pl && !fs2.isEmpty) = true then mergeClose Ω fs2 else fs2) = fs3
+  have e3 : nonWs (chars fs3) = nonWs (chars fs2) := by
+    rw [← h3]; split
+    · exact mergeClose_nonWs Ω fs2
+    · rfl
+  have e4 : nonWs (chars (if (o.rp && !fs3.isEmpty) = true
+      then mergeIntoParagraphs Ω false (mergeIntoLines Ω fs3) else fs3)) ~ nonWs (chars fs3) := by
+    split
+    · rw [mergeIntoParagraphs_nonWs]; exact mergeIntoLines_nonWs Ω fs3
+    · exact Perm.refl _
+  refine Perm.trans e4 ?_
+  rw [e3]
+  refine Perm.trans e2 ?_
+  rw [e1]
+
+theorem clamp_none' (s : List Nat) : clamp none s = s := rfl
+
+theorem clamp_len (m : Nat) (s : List Nat) : utf8Len (clamp (some m) s) ≤ m := by
+  simp only [clamp]
+  split
+  · exact clampGo_len _ _
+  · rename_i h; omega
+
+/-! ### the fragments mirror the flat text (operator loop, model side only) -/
+
+/-- every character the loop hands to the flat text it also hands to the fragment list -/
+def Mirror (ev : List Ev) : Prop := fragTexts ev = appTexts ev
+
+theorem Mirror.nil : Mirror [] := rfl
+
+theorem Mirror.append {a b : List Ev} (ha : Mirror a) (hb : Mirror b) : Mirror (a ++ b) := by
+  unfold Mirror at *
+  simp only [fragTexts, appTexts, flatMap_append] at *
+  rw [ha, hb]
+
+theorem showStr_mirror (P : Prog) (ia : Bool) (cr : Nat) (c : Cache) (k : SepK) (bs : List Nat)
+    (st : St) : Mirror (showStr P ia cr c k bs st).2 := by
+  unfold showStr
+  split
+  · exact Mirror.nil
+  · rename_i decoded _
+    split
+    · exact Mirror.nil
+    · split
+      · simp [Mirror, fragTexts, appTexts, evApp, evFrag]
+      · by_cases hd : decoded.isEmpty = true
+        · have : decoded = [] := by simpa using hd
+          subst this
+          simp [Mirror, fragTexts, appTexts, evApp, evFrag]
+        · simp [Mirror, fragTexts, appTexts, evApp, evFrag, hd]
+
+theorem showArr_mirror (P : Prog) (ia : Bool) (cr : Nat) (c : Cache) (items : List TjItem)
+    (first : Bool) (st : St) : Mirror (showArr P ia cr c items first st).2 := by
+  induction items generalizing first st with
+  | nil => exact Mirror.nil
+  | cons it rest ih =>
+    cases it with
+    | str bs =>
+      simp only [showArr]
+      exact Mirror.append (showStr_mirror ..) (ih ..)
+    | num =>
+      simp only [showArr]
+      refine Mirror.append ?_ (ih ..)
+      split <;> simp [Mirror, fragTexts, appTexts, evApp, evFrag]
+
+theorem endMarked_mirror (ia : Bool) (st : St) : Mirror (endMarked ia st).2 := by
+  unfold endMarked
+  split
+  · exact Mirror.nil
+  · split
+    · exact Mirror.nil
+    · simp only
+      split
+      · split
+        · split
+          · simp [Mirror, fragTexts, appTexts, evApp, evFrag]
+          · exact Mirror.nil
+        · exact Mirror.nil
+      · exact Mirror.nil
+
+theorem stepSimple_mirror (P : Prog) (ia : Bool) (cr : Nat) (c : Cache) (op : Op) (st : St) :
+    Mirror (stepSimple P ia cr c op st).2 := by
+  cases op <;> simp only [stepSimple] <;> (try exact Mirror.nil)
+  case q => split <;> exact Mirror.nil
+  case Q => split; exact Mirror.nil; split <;> exact Mirror.nil
+  case tj bs => split; exact showStr_mirror ..; exact Mirror.nil
+  case quote bs => split; exact showStr_mirror ..; exact Mirror.nil
+  case tjArr items => split; exact showArr_mirror ..; exact Mirror.nil
+  case emc => exact endMarked_mirror ia st
+
+theorem runOps_mirror (P : Prog) (ia : Bool) (cr : Nat)
+    (call : Nat → Cache → St → St × List Ev) (hcall : ∀ j c st, Mirror (call j c st).2)
+    (xmap : List Nat) (c : Cache) (ops : List Op) (st : St) :
+    Mirror (runOps P ia cr call xmap c ops st).2 := by
+  induction ops generalizing st with
+  | nil => exact Mirror.nil
+  | cons op rest ih =>
+    simp only [runOps]
+    refine Mirror.append ?_ (ih _)
+    split
+    · split
+      · exact hcall ..
+      · exact Mirror.nil
+    · exact stepSimple_mirror ..
+
+theorem level_mirror (P : Prog) (ia : Bool) (cr : Nat) (d j : Nat) (c : Cache) (st : St) :
+    Mirror (level P ia cr d j c st).2 := by
+  induction d generalizing j c st with
+  | zero => exact Mirror.nil
+  | succ d ih =>
+    simp only [level]
+    split
+    · exact Mirror.nil
+    · simp only [paint]
+      exact runOps_mirror P ia cr _ (fun j c st => ih j c st) ..
+
+theorem events_mirror (P : Prog) (ia : Bool) (cr : Nat) : Mirror (events P ia cr).2 := by
+  unfold events
+  split
+  · exact Mirror.nil
+  · exact runOps_mirror P ia cr _ (fun j c st => level_mirror P ia cr _ j c st) ..
+
+/-- sample geometry oracle for the non-vacuity examples: geometry = an x position; every pair of
+    fragments is "close" (merged when `merge`, with a space when `space`), one line, one region -/
+def sampleGeo (merge space : Bool) : Geo Nat where
+  regionBreak := fun _ _ => false
+  rowBreak := fun _ _ => false
+  closeMerge := fun _ _ => merge
+  closeSpace := fun _ _ => space
+  closeJoin := fun a _ => a
+  wrapGeom := fun _ _ => true
+  wrapJoin := fun a _ => a
+  cmpY := fun _ _ => .eq
+  cmpX := fun a b => compare a b
+  sameLine := fun _ _ => true
+  columns := fun _ => none
+  tagged := fun _ => false
+  lineJoin := fun _ _ => true
+  prefersEmission := fun _ => false
+  lineSpace := fun _ _ => true
+  lineGeom := fun l => l.headD 0
+  paraBreak := fun _ _ _ => false
+  paraJoin := fun a _ => a
+  recNewline := fun _ _ => true
+  recSpace := fun _ _ => false
+
+def sampleFlat : FlatΩ where
+  tjSep := fun i => if i % 2 == 0 then .newline else .space
+  arrSep := fun _ _ => .none
+  kern := fun _ => true
+
+def sampleCut : CutΩ where
+  cut := fun idx => if idx.length ≤ 1 then none else some (fun i => i % 2 == 1)
+
 end OxiVerif.C11
